@@ -17,12 +17,49 @@ def nontrivial(run, m):
     return am.stats["grown"] >= 3
 
 
+def rerun_inflight(job):
+    """as soon as the workflow fails it is rerun (default request) while other actions are still in flight; their
+    reports arrive after the rerun"""
+    from ovf import workloads
+    from ovf.sim import explore
+    from ovf.sim.provider import h64
+    out = dict(evaluations=0, nontrivial=set(), violations=[], samples=[], counters={}, sets={})
+    only = job.get("only")
+    for seed in ([only[0]] if only else range(job["lo"], job["hi"])):
+        m, inputs = workloads.gen_case(job, seed)
+        wf = m.render()
+        if not workloads.inspect_ok(wf):
+            continue
+        for sched in range(2):
+            case = dict(wf=wf, inputs=inputs, oseed=h64(job.get("gseed", 0), seed, "o") % 100000, p_fail=0.3)
+            run = explore.make_run(case, workloads.monitors(), model=m)
+            state = dict(done=False)
+
+            def hook(run, phase, state=state):
+                if phase == "after_done" and not state["done"] and run.status() == "failed" and run.inflight:
+                    state["done"] = True
+                    ev = run.rerun(None)
+                    if ev["exc"] is None:
+                        run.outcomes.force = lambda a: ("succeeded", None)
+                        out["counters"]["reruns_with_actions_in_flight"] = out["counters"].get("reruns_with_actions_in_flight", 0) + 1
+
+            explore.run_free(run, explore.Policy(pseed=h64(seed, sched), lazy_pct=job.get("lazy", 50) * sched), hook=hook)
+            run.finish()
+            out["evaluations"] += 1
+            workloads.collect(out, job, run, m, (seed, sched), nontrivial)
+    return out
+
+
 def jobs(tier, seed):
     P = dict(p_intjoin=0.4, p_intjoin_less=0.3, p_items=0.25, p_retry=0.25)
     js = batches("conduct", scale(tier, 260, 5000), scale(tier, 20, 100), gen="mix", p_loop=0.35, P=P, gseed=seed,
                  scheds=2, lazy=[0, 60], name="free")
     js += batches("conduct", scale(tier, 160, 3000), scale(tier, 20, 100), gen="mix", p_loop=0.35, P=P, gseed=seed + 1,
-                  scheds=2, lazy=[0, 60], ctl=dict(req=0.07, max_req=3, crash=0.04, early_render=0.3), name="random-ctl")
+                  scheds=2, lazy=[0, 60], ctl=dict(req=0.07, max_req=3, crash=0.04, early_render=0.3, rerun=0.7), name="random-ctl")
+    # failed workflows with actions still in flight are rerun at once (late reports arrive after the rerun)
+    js += batches("rerun_inflight", scale(tier, 120, 2500), scale(tier, 15, 100), gen="mix", p_loop=0.2, P=P, gseed=seed + 2, name="rerun-with-late-reports")
+    js += batches("rerun_inflight", scale(tier, 640, 8000), scale(tier, 40, 200), gen="dag", gseed=seed + 3, lazy=80,
+                  P=dict(p_join=0.9, p_intjoin=0.9, p_intjoin_less=0.9, nmax=5, p_items=0.05, p_retry=0.05), name="rerun-int-joins")
     return js
 
 
